@@ -26,3 +26,8 @@ package db
 //@   requires prefixLimit(p, l)
 //@   requires blexle(p, k) && blexlt(k, l)
 //@   ensures bhasprefix(k, p)
+
+// The iterator bound check every backend wrapper relies on: start inclusive, end exclusive
+// (end is the prefix limit computed by bytesPrefix, or the caller's explicit end).
+//@ func (*itBase).checkKey [C06,C07]
+//@   ensures result <==> (isnil(it.start) || blexle(bytes(it.start), bytes(key))) && (isnil(it.end) || blexlt(bytes(key), bytes(it.end)))
